@@ -7,7 +7,7 @@ from vt import Infra
 
 CONV_MUTS = ["cvt-rounds", "no-cw-bracket", "row-u32-as-i32", "u64f80-no-fixup", "u64-no-sticky", "f2u32-narrow",
              "row-f80f32-as-f64", "rank-float-double", "no-vararg-promotion"]
-MINI_MUTS = ["no-operand-swap", "ucomis-operands", "drop-setnp", "fsubp-fdivp", "sse-operand-order"]
+MINI_MUTS = ["no-operand-swap", "ucomis-operands", "drop-setnp", "fsubp-fdivp", "sse-operand-order", "truth-bit-test"]
 
 
 def jobs(ctx):
